@@ -10,8 +10,8 @@
    DESIGN section 1), and that a callable which passes the three-point probe IS the identity/reciprocal
    (it need not be: C10_probe_refuted). *)
 From CV Require Import Base.Tac Base.LinAlg Base.Cmp Model.C10_Conj Model.C10_ConjR
-                       Proofs.C10_Kernel Proofs.C10_Exact Proofs.C10_Valid.
-From Coq Require Import Reals QArith Qabs.
+                       Proofs.C10_Kernel Proofs.C10_Exact Proofs.C10_Valid Proofs.C10_Carrier.
+From Coq Require Import Reals QArith Qabs Qreals.
 
 (* ------------------------------------------------------------------------------------------------- *)
 (* 1. the Gamma kernel identity and its converse                                                      *)
@@ -262,6 +262,20 @@ Proof.
   exact (fun Rnd Pt ts st rs => conj (direct_run_is_target_sample Rnd Pt ts st rs) (direct_run_state Rnd Pt ts st rs)).
 Qed.
 Print Assumptions C10_direct.
+
+
+(* ------------------------------------------------------------------------------------------------- *)
+(* 5. one formula, two carriers                                                                       *)
+(* ------------------------------------------------------------------------------------------------- *)
+
+(* the executable parameters over Q that every run compares with the code are the real-valued parameters of
+   the exactness theorems: Q2R commutes with shape and rate (all sizes) *)
+Theorem C10_model_carriers_agree :
+  forall (m : nat) (alpha beta : Q) (L : list (list Q)) (Ax b : list Q),
+    Q2R (q_shape m alpha) = r_shape m (Q2R alpha)
+    /\ Q2R (q_rate L Ax b beta) = r_rate (Q2Rm L) (Q2Rv Ax) (Q2Rv b) (Q2R beta).
+Proof. exact (fun m alpha beta L Ax b => conj (shape_carriers_agree m alpha) (rate_carriers_agree L Ax b beta)). Qed.
+Print Assumptions C10_model_carriers_agree.
 
 (* ------------------------------------------------------------------------------------------------- *)
 (* non-vacuity: the hypotheses of the exactness theorems are satisfiable                              *)
